@@ -445,3 +445,7 @@ def rules(ctx: Ctx) -> None:
     from . import common as _common
 
     _common.flag_rule(ctx, _common.runner(prog), "R10.7")
+
+    # ---- R10.10 no state shared between analyses can change what a text is reported as (= R12.2: e.g. a parse cache keyed by text only and
+    # shared by analyzers of different dialects answers "valid" for text the current dialect cannot parse)
+    _common.import_rules(ctx, "C12", {"R12.2": "R10.10"})
